@@ -50,6 +50,16 @@ Mutations (scratch worktrees with the repair applied; each must turn the check r
   M10 repair: continuation lines without "data: "                                    caught
   M11 http_stream JSON: delimiter written before instead of after each message       caught
   M12 repair reverted (= the original defect)                                        caught
+  M13 http_stream Protobuf: encoder.FinishNoCopy() + PutDataEncoder BEFORE w.Write (the written slice aliases a
+      pooled buffer that another connection refills while this Write is stalled)     caught by the stall probe
+      (signature http_stream:protobuf:stalled-write-in-payload); missed by the HTTP replay alone
+
+Stall probe (mode "stall", both tiers): the real HTTPStreamHandler (Protobuf and JSON) and SSEHandler serve two
+in-process connections each with the harness's own http.ResponseWriter + Flusher + SetWriteDeadline whose Write can
+park BEFORE it reads its argument; per round (20 quick / 200 thorough per transport, stalled side alternating,
+seed-dependent length): publish to A, wait until A's Write is entered, publish a message of the same length to B,
+wait for B's record, release A; both records must decode to their own connection's message.  GOMAXPROCS(1) for the
+probe (sync.Pool per-P slot => deterministic reuse), restored afterwards.
 """
 import json
 import os
